@@ -85,3 +85,32 @@ class Externals:
 
     def dict_from_pairs(self, it, v, fr):
         raise Unsupported("dict() from pairs")
+
+    # -- pydantic / json / pyzstd (assumed library contracts, DESIGN 2.8)
+    def x_pydantic_instance_model_dump_json(self, it, args, kwargs, fr):
+        v = args[0]
+        f = z3.Function("json_dump", TAny.sort(), z3.StringSort())
+        return SV(TStr, f(it.coerce(v, TAny).term if v.ty is not TAny else v.term))
+
+    def x_pydantic_model_validate_json(self, it, args, kwargs, fr):
+        ci, payload = args[0], it.force(args[1], fr)
+        from .tys import Ref
+        if payload.ty is TStr:
+            enc = z3.Function("utf8_encode", z3.StringSort(), z3.SeqSort(z3.IntSort()))
+            payload = SV(TSeq(TInt, bytes_=True), enc(payload.term))
+        f = z3.Function("json_validate_" + ci.name, z3.SeqSort(z3.IntSort()), Ref)
+        r = SV(TObj(ci.qname, exact=True), f(payload.term))
+        it.notes.add("pydantic model_validate_json: assumed to succeed and return an instance of the model (schema-invalid input is outside the claim)")
+        return it.assume_wf(r)
+
+    def x_pyzstd_compress(self, it, args, kwargs, fr):
+        b = it.force(args[0], fr)
+        lvl = it.coerce(it.force(args[1], fr), TInt)
+        f = z3.Function("zcompress", z3.SeqSort(z3.IntSort()), z3.IntSort(), z3.SeqSort(z3.IntSort()))
+        return it.assume_wf(SV(TSeq(TInt, bytes_=True), f(b.term, lvl.term)))
+
+    def x_pyzstd_decompress(self, it, args, kwargs, fr):
+        b = it.force(args[0], fr)
+        f = z3.Function("zdecompress", z3.SeqSort(z3.IntSort()), z3.SeqSort(z3.IntSort()))
+        it.notes.add("pyzstd.decompress: assumed total on the payloads considered (corrupt frames raise ZstdError, outside the claim)")
+        return it.assume_wf(SV(TSeq(TInt, bytes_=True), f(b.term)))
